@@ -1495,6 +1495,19 @@ class Round(Elemwise):
     _parameters = ["frame", "decimals"]
     operation = M.round
 
+    def _simplify_up(self, parent, dependents):
+        decimals = self.operand("decimals")
+        if isinstance(parent, Projection) and isinstance(decimals, dict):
+            columns = determine_column_projection(self, parent, dependents)
+            if not isinstance(columns, list) and columns in self.frame.columns:
+                # A Series cannot be rounded by a dict; columns that are not
+                # in the dict are left as they are
+                frame = self.frame[columns]
+                if columns in decimals:
+                    return type(self)(frame, decimals[columns])
+                return frame
+        return super()._simplify_up(parent, dependents)
+
 
 class Where(Elemwise):
     _projection_passthrough = True
